@@ -12,9 +12,10 @@ import (
 )
 
 type Plan struct {
-	Prop  string   `json:"prop"`
-	Tasks [][]Call `json:"tasks"`
-	Adv   []AdvOp  `json:"adv,omitempty"` // adversary task (runs as the last task)
+	Prop     string   `json:"prop"`
+	RefAfter bool     `json:"ref_after,omitempty"` // reference calls run after the concurrent phase (tasks meet cold caches)
+	Tasks    [][]Call `json:"tasks"`
+	Adv      []AdvOp  `json:"adv,omitempty"` // adversary task (runs as the last task)
 
 	// shared objects several tasks pass to the library at once
 	SharedParams []ParamSpec `json:"shared_params,omitempty"`
@@ -167,17 +168,43 @@ func genField(t *rapid.T, label string, n int, nShared int) Field {
 	return f
 }
 
-func suiteConfigOf(sp SuiteSpec) (cfg otp.SuiteConfig, ok bool) {
-	defer func() {
-		if recover() != nil {
-			ok = false
-		}
-	}()
-	st := buildSuite(sp)
-	if st == nil {
-		return cfg, false
+// registeredCfg is read once at process start (registered names only: lookups
+// of registered suites are reads; the generator never calls the library with
+// anything that could warm a cache or touch package state the run relies on
+// seeing for the first time).
+var registeredCfg = func() map[string]otp.SuiteConfig {
+	m := map[string]otp.SuiteConfig{}
+	for _, n := range sortedSuites {
+		m[n] = otp.SuiteConfigFromRaws(n)
 	}
-	return st.Config(), true
+	return m
+}()
+
+// needs describes what the generator must know about a suite to build
+// admissible inputs; derived from the spec, never from the library.
+type needs struct {
+	chalMin int
+	pinLen  int
+}
+
+func needsOf(sp SuiteSpec) needs {
+	n := needs{chalMin: 8, pinLen: 20}
+	ch, ph := sp.Challenge, sp.PHash
+	if sp.Mode == "registered" {
+		c := registeredCfg[sp.Name]
+		ch, ph = int(c.Challenge), int(c.PasswordHash)
+	}
+	switch ch {
+	case 2, 4, 6:
+		n.chalMin = 10
+	}
+	switch ph {
+	case 2:
+		n.pinLen = 32
+	case 3:
+		n.pinLen = 64
+	}
+	return n
 }
 
 func genSuite(t *rapid.T) SuiteSpec {
@@ -186,22 +213,31 @@ func genSuite(t *rapid.T) SuiteSpec {
 		return SuiteSpec{Mode: "registered", Name: rapid.SampledFrom(sortedSuites).Draw(t, "suiteName")}
 	case 1:
 		// parsed (not registered) numeric-challenge suites, incl. long ones that outgrow the pooled buffer
+		sp := SuiteSpec{Mode: "parsed", Challenge: 1, PHash: 0}
 		s := "OCRA-1:HOTP-" + rapid.SampledFrom([]string{"SHA1", "SHA256", "SHA512"}).Draw(t, "pHash") + "-" +
 			rapid.SampledFrom([]string{"4", "5", "6", "7", "8", "9", "10"}).Draw(t, "pDig") + ":"
 		if rapid.Bool().Draw(t, "pC") {
 			s += "C-"
 		}
-		s += "QN" + rapid.SampledFrom([]string{"08", "10"}).Draw(t, "pQ")
+		ql := rapid.SampledFrom([]string{"08", "10"}).Draw(t, "pQ")
+		if ql == "10" {
+			sp.Challenge = 2
+		}
+		s += "QN" + ql
 		if rapid.Bool().Draw(t, "pP") {
-			s += "-P" + rapid.SampledFrom([]string{"SHA1", "SHA256", "SHA512"}).Draw(t, "pPH")
+			ph := rapid.IntRange(1, 3).Draw(t, "pPH")
+			sp.PHash = ph
+			s += "-P" + []string{"", "SHA1", "SHA256", "SHA512"}[ph]
 		}
 		if rapid.Bool().Draw(t, "pS") {
 			s += "-S" + rapid.SampledFrom([]string{"", "064", "128"}).Draw(t, "pSL")
 		}
 		if rapid.Bool().Draw(t, "pT") {
-			s += "-T" + rapid.SampledFrom([]string{"1M", "30S", "2H", "59S"}).Draw(t, "pTG")
+			// a wide space of time steps: most parsed names are new to the process
+			s += "-T" + itoa(rapid.IntRange(1, 59).Draw(t, "pTn")) + rapid.SampledFrom([]string{"S", "M", "H"}).Draw(t, "pTu")
 		}
-		return SuiteSpec{Mode: "parsed", Name: s}
+		sp.Name = s
+		return sp
 	default:
 		mode := "newsuite"
 		if rapid.Bool().Draw(t, "cfgMode") {
@@ -217,7 +253,7 @@ func genSuite(t *rapid.T) SuiteSpec {
 }
 
 func genOCRAFields(t *rapid.T, sp SuiteSpec, nShared int) [5]Field {
-	cfg, _ := suiteConfigOf(sp)
+	nd := needsOf(sp)
 	var in [5]Field
 	bad := weighted(t, "badInput?", 9, 1) == 1
 	cl := 8
@@ -225,23 +261,13 @@ func genOCRAFields(t *rapid.T, sp SuiteSpec, nShared int) [5]Field {
 		cl = rapid.SampledFrom([]int{0, 7, 9}).Draw(t, "badCtrLen")
 	}
 	in[0] = genField(t, "fCounter", cl, nShared)
-	min := 8
-	switch cfg.Challenge {
-	case otp.ChallengeNumeric10, otp.ChallengeAlpha10, otp.ChallengeHex10:
-		min = 10
-	}
+	min := nd.chalMin
 	ql := genLenAround(t, "fChalLen", min, 128, min, 127, 128, 64)
 	if bad && rapid.Bool().Draw(t, "badChal") {
 		ql = rapid.SampledFrom([]int{0, min - 1, 129, 200}).Draw(t, "badChalLen")
 	}
 	in[1] = genField(t, "fChal", ql, nShared)
-	pl := 20
-	switch cfg.PasswordHash {
-	case otp.PasswordSHA256:
-		pl = 32
-	case otp.PasswordSHA512:
-		pl = 64
-	}
+	pl := nd.pinLen
 	if bad && rapid.Bool().Draw(t, "badPin") {
 		pl = rapid.SampledFrom([]int{0, 19, 21, 33}).Draw(t, "badPinLen")
 	}
@@ -321,10 +347,9 @@ func genCall(t *rapid.T, prop string, nSharedP, nSharedF int) Call {
 		case 0:
 			c.Str = rapid.SampledFrom(sortedSuites).Draw(t, "suiteName")
 		case 1:
-			c.Str = genSuite(t).Name
-			if c.Str == "" {
-				c.Str = "OCRA-1:HOTP-SHA1-6:QN08-T1M"
-			}
+			// an unregistered but well-formed name, most likely new to this process
+			c.Str = "OCRA-1:HOTP-" + rapid.SampledFrom([]string{"SHA1", "SHA256", "SHA512"}).Draw(t, "nHash") + "-" + itoa(rapid.IntRange(4, 10).Draw(t, "nDig")) +
+				":QN08-T" + itoa(rapid.IntRange(1, 59).Draw(t, "nTn")) + rapid.SampledFrom([]string{"S", "M", "H"}).Draw(t, "nTu")
 		default:
 			c.Str = rapid.SampledFrom([]string{"", "OCRA-1", "OCRA-1:HOTP-SHA1-6:QA08", "OCRA-2:HOTP-SHA1-6:QN08", "OCRA-1:HOTP-SHA1-x:QN08", "OCRA-1:HOTP-SHA1-6:QN08-T0S", "nonsense"}).Draw(t, "badSuite")
 		}
@@ -398,6 +423,7 @@ func genSched(t *rapid.T, nTasks int) SchedSpec {
 
 func GenPlan(t *rapid.T, prop string) *Plan {
 	p := &Plan{Prop: prop}
+	p.RefAfter = rapid.Bool().Draw(t, "refAfter")
 	maxTasks := rapid.SampledFrom([]int{2, 3, 4, 8, 16, 64}).Draw(t, "maxTasks")
 	if prop == "C08" && maxTasks > 16 {
 		maxTasks = 16
@@ -470,4 +496,18 @@ func GenPlan(t *rapid.T, prop string) *Plan {
 		p.Reader.Chunks = append(p.Reader.Chunks, uint16(rapid.IntRange(0, chunkMax).Draw(t, "chunk")))
 	}
 	return p
+}
+
+func itoa(i int) string {
+	if i == 0 {
+		return "0"
+	}
+	var b [20]byte
+	n := len(b)
+	for i > 0 {
+		n--
+		b[n] = byte('0' + i%10)
+		i /= 10
+	}
+	return string(b[n:])
 }
